@@ -1,7 +1,7 @@
 """Which TLC models decide which property, per tier.  Every job is an instance of spec/TaSystem.tla."""
 import random
 from fractions import Fraction as Fr
-from tlagen import Job, cfg, bar
+from tlagen import Job, RawJob, cfg, bar, tla
 
 
 class ToolError(Exception):
@@ -823,7 +823,200 @@ def Memory_of(kind, n):
     return n + 1 if kind in ("ROC", "ER", "MFI") else n
 
 
+def plan_C11(tier, seed):
+    q = tier == "quick"
+    mod = """---- MODULE MC_ctor ----
+EXTENDS Ctor
+mcPMax == 4096
+mcTMax == %d
+mcSample == %d
+====
+""" % ((9 if q else 24), (7 if q else 1))
+    cfgt = """CONSTANTS
+ PMax <- mcPMax
+ TMax <- mcTMax
+ Sample <- mcSample
+INIT Init
+NEXT Next
+INVARIANT EmitCase
+CHECK_DEADLOCK FALSE
+"""
+    return {
+        "jobs": [RawJob("ctor", mod, cfgt, tables="ctor")], "parallel": 1, "exhaustive": not q,
+        "rule": "Ctor.tla enumerates every constructor call as an initial state: single-period kinds over 0..4096 (every 7th beyond 64 in the quick tier), all tuples "
+                "over 0..24 (0..9 quick) for the multi-period kinds, the boundary tokens 2^31, 2^32, 2^53+1, usize::MAX-1, usize::MAX in every position for the "
+                "kinds that allocate no window, and eight multipliers (0, -1, 1/2, 2, 3, 1000, -0.0, NaN); TLC prints the expected result, Display text and period(); "
+                "the real constructor runs under catch_unwind, accessors and Display are compared after new and again after next/reset/next; Default::default() is "
+                "compared with new(documented defaults) bit by bit on a 30-step stream; a case is distinct by (kind, period arguments, multiplier)",
+        "assumptions": ["windowed kinds are constructed with periods up to 4096 only ('as far as memory allows' is not pushed further)", "TLC, the Json module and serde_json are trusted"],
+    }
+
+
+def plan_C16(tier, seed):
+    q = tier == "quick"
+    jobs = []
+    base = """---- MODULE MC_%s ----
+EXTENDS DataItem
+mcVals == %s
+mcInt == %s
+mcMaxPath == %d
+%s
+====
+"""
+    cfg_state = """CONSTANTS
+ Vals <- mcVals
+ IntMode <- mcInt
+ MaxPath <- mcMaxPath
+INIT Init
+NEXT Next
+VIEW view
+INVARIANT EmitState
+INVARIANT NaNRejected
+INVARIANT LastWins
+CHECK_DEADLOCK FALSE
+"""
+    cfg_trans = cfg_state.replace("INVARIANT EmitState\n", "ACTION_CONSTRAINT %s\n")
+    # every slot state of the full ten-point lattice: 11^5 states, one setter path + build + getters each
+    jobs.append(RawJob("lattice_states", base % ("lattice_states", "0..9", "FALSE", 1000, ""), cfg_state, tables="dataitem"))
+    # every transition (alternative orders, repeated setters) on a sub-lattice {-1, -0.0, +0.0, 1, NaN} (quick) / a seeded sample on the full one
+    if q:
+        jobs.append(RawJob("sub_trans", base % ("sub_trans", "{2, 3, 4, 5, 9}", "FALSE", 1000, ""), cfg_trans % "EmitTrans", tables="dataitem"))
+    else:
+        jobs.append(RawJob("full_trans", base % ("full_trans", "0..9", "FALSE", 1000, "Samp == RandomElement(1..12) # 1 \\/ EmitTrans"),
+                           cfg_trans % "Samp", tables="dataitem"))
+        jobs.append(RawJob("sub_trans", base % ("sub_trans", "{0, 2, 3, 4, 5, 8, 9}", "FALSE", 1000, ""), cfg_trans % "EmitTrans", tables="dataitem"))
+    # finite tuples: integers mapped to 0.37*k by the harness (every order type of small integers incl. negative volume)
+    jobs.append(RawJob("ints", base % ("ints", "{-3, 0, 1, 2, 5}" if q else "{-3, -1, 0, 1, 2, 5, 7}", "TRUE", 1000, ""), cfg_state, tables="dataitem"))
+    return {
+        "jobs": jobs, "parallel": 4, "exhaustive": True,
+        "rule": "DataItem.tla explored completely: all 11^5 = 161 051 slot states over the lattice {-inf,-2,-1,-0.0,0.0,1,2,3,+inf,NaN} x {unset} (every subset of "
+                "setters, every 5-tuple), one setter path to each state, then build() and the getters; every transition (other orders, repeated setters) on a "
+                "sub-lattice (a seeded 1/12 sample of the 8 million transitions of the full lattice in the thorough tier); finite integer tuples; the real builder "
+                "must return exactly the spec's result, getters bit-exactly the last value set, clone == item, bincode round trip == item, and SMA/MIN/MAX/TR fed the "
+                "item must read close/low/high; a case is distinct by (slot state, setter path)",
+        "assumptions": ["the ten-point lattice stands for all floats: every order type of four prices and every sign class of volume occurs", "TLC, the Json module and serde_json are trusted"],
+    }
+
+
+def stream_job(name, kind, c, segs, samples, prop="C13"):
+    """segs: [(pattern ops, reps)], ops as {"op":"s","x":k} / {"op":"b",...}; builds the Streams.tla model + the harness schedule"""
+    def rec(o):
+        if o["op"] == "s":
+            return {"ty": "s", "x": o["x"]}
+        return {"ty": "b", "o": o["o"], "h": o["h"], "l": o["l"], "c": o["c"], "v": o["v"]}
+    sched_tla = "<<" + ",\n  ".join("[pat |-> %s, reps |-> %d]" % (tla([rec(o) for o in pat]), reps) for pat, reps in segs) + ">>"
+    p = {"n": c["n"], "n2": c["n2"], "n3": c["n3"], "m": c["m"], "seed": c["seed"]}
+    mod = """---- MODULE MC_%s ----
+EXTENDS Streams
+mcSched == %s
+mcKind == "%s"
+mcP == %s
+mcSamples == %s
+====
+""" % (name, sched_tla, kind, tla(p), tla(set(samples)))
+    cfgt = """CONSTANTS
+ Sched <- mcSched
+ Kind <- mcKind
+ P <- mcP
+ Samples <- mcSamples
+INIT Init
+NEXT Next
+CHECK_DEADLOCK FALSE
+"""
+    mem = c["n"] + 1 if kind in ("ROC", "ER", "MFI") else c["n"]
+    sched = {"prop": prop, "kind": kind, "per": [c["n"], c["n2"], c["n3"]], "m": [c["m"].numerator, c["m"].denominator],
+             "seed": [c["seed"].numerator, c["seed"].denominator], "mem": mem,
+             "sched": [{"pat": pat, "reps": reps} for pat, reps in segs]}
+    return RawJob(name, mod, cfgt, sched=sched)
+
+
+def c13_segments(rng, kind, n, total, lo, hi):
+    """regimes of C13: pseudo-random walk pattern repeated, alternating extremes, spikes, plateaus, saw-tooth (cycles that do and do not divide n)"""
+    def mk(xs):
+        if kind in BAR_ONLY:
+            return [b_op(1, bar(min(hi, x + 1), max(lo, x - (k % 2)), x, o=x, v=(1 + (k * 7 + x) % 4))) for k, x in enumerate(xs)]
+        return [s_op(1, x) for x in xs]
+    segs = []
+    nseg = rng.randint(4, 7)
+    per = total // nseg
+    for j in range(nseg):
+        r = (j + rng.randint(0, 5)) % 6
+        if r == 0:
+            pat = rand_walk_wide(rng, rng.randint(50, 500), lo, hi)
+        elif r == 1:
+            c = rng.choice([2, 2 * n, n]) if n > 1 else 2
+            pat = [lo if (k * 2 // c) % 2 == 0 else hi for k in range(c)] if c > 1 else [lo, hi]
+        elif r == 2:
+            base = rng.randint(lo, hi)
+            pat = [base] * rng.randint(3, 3 * n + 5) + [hi if base < (lo + hi) // 2 else lo]
+        elif r == 3:
+            pat = [rng.randint(lo, hi)] * rng.randint(1, 4)
+        elif r == 4:
+            c = rng.choice([n, n + 1, 2 * n, 7, 3]) if n > 1 else 3
+            step = max(1, (hi - lo) // max(c, 1))
+            pat = [min(hi, lo + step * (k % c)) for k in range(c)]
+        else:
+            pat = [rng.randint(lo, hi) for _ in range(rng.randint(20, 300))]
+        for o in mk(pat):
+            o.pop("i", None)
+        reps = max(1, per // len(pat))
+        segs.append(([{k: v for k, v in o.items() if k != "i"} for o in mk(pat)], reps))
+    return segs
+
+
+def rand_walk_wide(rng, length, lo, hi):
+    x = rng.randint(lo, hi)
+    out = []
+    span = max(1, (hi - lo) // 20)
+    for _ in range(length):
+        x = min(hi, max(lo, x + rng.randint(-span, span)))
+        out.append(x)
+    return out
+
+
+def plan_C13(tier, seed):
+    q = tier == "quick"
+    rng = random.Random(seed * 817504243 + 13)
+    jobs = []
+    total = 200000 if q else 2000000
+    for kind in ["SMA", "WMA", "SD", "BB", "MAD", "CCI", "MFI", "MIN", "MAX"]:
+        combos = [(rng.choice([2, 3, 5, 9, 14, 20, 33, 40]), 1, 1000), (rng.choice([100, 256, 500, 1000]), 1, 46)]
+        if not q:
+            combos += [(rng.choice([1, 2, 4, 7, 12, 26, 40]), 1, 1000), (rng.choice([64, 128, 333, 1000]), 1, 46), (rng.choice([9, 20]), 10, 1000)]
+        for k, (n, lo, hi) in enumerate(combos):
+            c = cfg(kind, n, m=rng.choice([Fr(2), Fr(1, 2), Fr(3)]))
+            segs = c13_segments(rng, kind, n, total, lo, hi)
+            tot = sum(len(p) * r for p, r in segs)
+            samples = {tot, tot - 1, max(1, tot // 2)}
+            pos = 0
+            for p, r in segs:                      # around every regime switch
+                for d in (1, 2, n, n + 1, n + 2, 2 * n + 3):
+                    if pos + d <= tot:
+                        samples.add(pos + d)
+                pos += len(p) * r
+            for base in range(65536, tot, 65536):  # accumulators that resynchronise at round step counts
+                for d in (0, 1, n + 1, 2 * n + 5, 40):
+                    if base + d <= tot:
+                        samples.add(base + d)
+            while len(samples) < 70:
+                samples.add(int(10 ** (rng.random() * 6.3)) % tot + 1)
+            jobs.append(stream_job("%s_s%d_n%d" % (kind, k, n), kind, c, segs, samples))
+    return {
+        "jobs": jobs, "parallel": 6,
+        "rule": "Streams.tla: per kind (SMA, WMA, SD, BB, MAD, CCI, MFI, MIN, MAX) seeded schedules of 4-7 regimes (repeated pseudo-random walk patterns, alternating "
+                "extremes, spikes, plateaus, saw-tooths whose cycle does or does not divide the period) totalling 2*10^5 (quick) / 2*10^6 (thorough) inputs, on a "
+                "three-decade lattice 1..1000 with periods <= 40 and on 46 levels with periods up to 1000; TLC states the exact expectation for the window at ~70 "
+                "sampled steps (regime switches, multiples of 65536, log-uniform, the end) without stepping; the harness expands the schedule into real calls at every "
+                "price unit, compares at the sampled steps (MIN/MAX exactly) and checks at EVERY step that SD / the bands are not NaN or negative",
+        "assumptions": COMMON_ASSUME + ["the joint quantifier (period 1000 x three-decade band) is split for the variance-type references because TLC's integers are 32-bit",
+                                        "the harness's expansion of a schedule is checked against the specification's StreamAt at every sampled step"],
+    }
+
+
 PLANS = {
+    "C13": plan_C13,
+    "C11": plan_C11,
+    "C16": plan_C16,
     "C07": plan_C07,
     "C08": plan_C08,
     "C09": plan_C09,
